@@ -723,6 +723,15 @@ struct Extractor : public RecursiveASTVisitor<Extractor> {
     O["loc"] = locObj(FD->getLocation());
     O["end_line"] = (int64_t)line(FD->getEndLoc());
     O["implicit"] = FD->isImplicit();
+    {
+      // declared in a header (part of the interface) or only in a source file (file-local helper)
+      bool InHeader = false;
+      for (const FunctionDecl *RD : FD->redecls()) {
+        std::string P = realPath(RD->getLocation());
+        if (StringRef(P).endswith(".h") || StringRef(P).endswith(".hpp")) InHeader = true;
+      }
+      O["in_header"] = InHeader;
+    }
     O["defaulted"] = FD->isDefaulted();
     O["noexcept"] = isNoexceptExceptionSpec(FD->getExceptionSpecType()) &&
                     FD->getExceptionSpecType() != EST_NoexceptFalse;
